@@ -385,3 +385,8 @@ def check(cx):
                "that the table still shows", floor=5)
     cx.include(c07, {"C07.6"}, "C06.7", "shared with C07.6: every builder of index keys walks the declared indexed-column list, so "
                "that the entry DML stores is the entry a probe or scan looks for", floor=3)
+
+    # ---- C06.8 (construct shared with C05.9) ---------------------------------------------------------------------------
+    from . import c05
+    cx.include(c05, {"C05.9"}, "C06.8", "shared with C05.9: the merge join steps over a NULL key on the side that carries it; otherwise the "
+               "answer of an equi-join depends on whether the optimizer picked the merge join or another join method", floor=3)
